@@ -564,3 +564,35 @@ pub proof fn lemma_entry_wf_hv_empty(f: &Fsm, g0: &GlobalData, g1: &GlobalData)
 pub open spec fn only_inits(l: Seq<Call>, from: int, set_data: bool) -> bool {
     forall|i: int| from <= i < l.len() ==> (#[trigger] l[i]) is Init && l[i]->Init_1 == set_data
 }
+
+/// C14 (autoforward): the child session registered under key `k` was started by an <invoke autoforward="true"> of the
+/// state it belongs to
+pub open spec fn wants_forward(f: &Fsm, g: &GlobalData, k: String) -> bool {
+    g.child_sessions@.contains_key(k) && match g.child_sessions@[k].state_id {
+        Some(s) => exists|j: int| 0 <= j < st(f, s).invoke.data@.len() && fwd_inv(#[trigger] st(f, s).invoke.data@[j], g.child_sessions@[k].invoke_doc_id),
+        None => false,
+    }
+}
+
+pub open spec fn fwd_inv(inv: Invoke, doc_id: DocumentId) -> bool {
+    inv.doc_id == doc_id && inv.autoforward
+}
+
+/// the list of invoke ids an external event is going to be forwarded to names `k`
+pub open spec fn fwd_has(tf: Seq<String>, k: String) -> bool {
+    exists|m: int| 0 <= m < tf.len() && (#[trigger] tf[m])@ == k@
+}
+
+pub proof fn lemma_fwd_has_push(tf: Seq<String>, x: String, k: String)
+    ensures
+        fwd_has(tf, k) ==> fwd_has(tf.push(x), k),
+        x@ == k@ ==> fwd_has(tf.push(x), k),
+{
+    if fwd_has(tf, k) {
+        let m = choose|m: int| 0 <= m < tf.len() && (#[trigger] tf[m])@ == k@;
+        assert(tf.push(x)[m]@ == k@);
+    }
+    if x@ == k@ {
+        assert(tf.push(x)[tf.len() as int]@ == k@);
+    }
+}
